@@ -64,7 +64,7 @@ FLOORS = {
         "events": dict({e: 200 for e in _EP}, **{
             "read_trn:workers": 60, "hook:worker_items": 300, "hook:_trn_line_to_transcript:serial": 1000,
             "assert:roundtrip:trn": 250, "assert:roundtrip:ctm": 500, "assert:roundtrip:tg-tokens-order": 500,
-            "assert:path-vs-file:write_textgrid": 400, "assert:path-vs-file:write_trn": 400,
+            "assert:path-vs-file:write_textgrid": 200, "assert:path-vs-file:write_trn": 400,
             "assert:path-vs-file:write_ctm": 400, "assert:path-vs-file:read_textgrid": 200,
             "assert:path-vs-file:read_trn": 200, "assert:path-vs-file:read_ctm": 200,
             "assert:workers:equal-serial": 60, "assert:tg-fill": 80, "assert:roundtrip:tok-tokens": 500,
@@ -73,7 +73,7 @@ FLOORS = {
         "classes": dict({c: 30 for c in set(G.CLASSES)}, **_HOSTILE),
         "stats": {"mp_completed": 60, "mp_log_complete": 60, "mp_out_of_order": 5},
         "sets": {"completion_orders": 10, "mp_configs": 9},
-        "distinct": 1000,
+        "distinct": 800,
     },
     "thorough": {
         "events": dict({e: 10000 for e in _EP}, **{"read_trn:workers": 3000, "hook:worker_items": 15000,
@@ -81,7 +81,7 @@ FLOORS = {
         "classes": dict({c: 2000 for c in set(G.CLASSES)}, **{k: 20 * v for k, v in _HOSTILE.items()}),
         "stats": {"mp_completed": 3000, "mp_log_complete": 3000, "mp_out_of_order": 200},
         "sets": {"completion_orders": 200, "mp_configs": 9},
-        "distinct": 50000,
+        "distinct": 40000,
     },
 }
 CLASSES = G.CLASSES
@@ -110,6 +110,20 @@ def post(agg, tier):
     if agg["stats"].get("mp_hang", 0):
         agg["notes"].append("%d multi-process read(s) hit the hang guard: run is inconclusive" % agg["stats"]["mp_hang"])
         agg["stats"]["mp_completed"] = 0
+
+
+def classify(entry_id, vrec):
+    """D7 (open): the path entry point of write_textgrid re-calls itself on the opened file WITHOUT point_tier and
+    precision.  Recognised only by that mechanism: the path's bytes differ from the open-file bytes and are
+    exactly what the open-file call writes when these two options (and nothing else) are left out, and at least
+    one of them was actually passed.  Any other path/file difference stays a VIOLATION."""
+    if entry_id != "D7":
+        return False
+    d = vrec.get("details", {})
+    return (vrec.get("monitor") == "path-vs-file:write_textgrid"
+            and d.get("path_equals_call_without_point_tier_and_precision") is True
+            and len(d.get("dropped_candidates") or []) > 0
+            and d.get("path_bytes") != d.get("file_bytes"))
 
 
 def execute(case, mon):
@@ -320,6 +334,13 @@ def _gapfill(entries, lo, hi, fill):
 
 
 def _exec_tg(case, mon, tmp):
+    holder = {}
+    _tg_body(case, mon, tmp, holder)
+    d = holder.get("deferred")
+    mon.check(d is None, "path-vs-file:write_textgrid", **(d or {}))
+
+
+def _tg_body(case, mon, tmp, holder):
     import pydrobert.torch.config as config
     import pydrobert.torch.data as D
 
@@ -351,7 +372,34 @@ def _exec_tg(case, mon, tmp):
         mon.cls("tg_times_ge_100_mixed")
     if len(set(P(s) for s in starts)) < len(starts):
         mon.cls("tg_equal_printed_start")
-    pa, ba = _write_both(mon, "write_textgrid", D.write_textgrid, tr, tmp, "TextGrid", **kw)
+    # path == open file, byte for byte.  A difference is reported at the END of the case (so that a case
+    # hitting the known path-entry finding D7 still gets its whole round trip judged, on the file written
+    # through the open-file entry point, which honours every option).
+    pa, pb = os.path.join(tmp, "a.TextGrid"), os.path.join(tmp, "b.TextGrid")
+    mon.lib("write_textgrid", D.write_textgrid, tr, pa, **kw)
+    with open(pb, "w") as f:
+        mon.lib("write_textgrid", D.write_textgrid, tr, f, **kw)
+    sio = io.StringIO()
+    mon.lib("write_textgrid", D.write_textgrid, tr, sio, **kw)
+    ba, bb = _bytes(pa), _bytes(pb)
+    mon.check(sio.getvalue().encode("utf-8") == bb, "file-vs-buffer:write_textgrid", file_bytes=bb.decode("utf-8", "replace"),
+              buffer=sio.getvalue())
+    if ba != bb:
+        # which options did the path entry point lose?  Re-do the open-file call without point_tier and
+        # precision: if that reproduces the path's bytes, exactly those two were dropped (mechanism of D7)
+        kw2 = {k: v for k, v in kw.items() if k not in ("point_tier", "precision")}
+        s2 = io.StringIO()
+        mon.lib("write_textgrid", D.write_textgrid, tr, s2, **kw2)
+        deferred = dict(
+            path_bytes=ba.decode("utf-8", "replace"), file_bytes=bb.decode("utf-8", "replace"),
+            options={k: repr(v) for k, v in kw.items()},
+            path_equals_call_without_point_tier_and_precision=(s2.getvalue().encode("utf-8") == ba),
+            dropped_candidates=sorted(k for k in ("point_tier", "precision") if k in kw))
+        holder["deferred"] = deferred
+        mon.stat("tg_path_bytes_differ")
+    else:
+        mon.stat("tg_path_bytes_equal")
+    pa, ba = pb, bb  # judge the round trip on the file written with all options honoured
     text = ba.decode("utf-8")
     lo_exp, hi_exp = min(starts), max(e for _, _, e in tr)
     src = pa
